@@ -179,15 +179,25 @@ def gen_case(rng: random.Random, tier: str, bias: str = ''):
         pairs, macros = [], []
         T.handles[q] = {}
         T.parent[q] = parent
+        # some of the passed proxies are dropped by the parent right after start(), while their
+        # pickles are still in transit to the bootstrapping child: the in-transit reference alone
+        # must keep the hosted object alive
+        drop = [h for h in hs if rng.random() < 0.35]
+        unp = []
         for h in hs:
             i = T.handles[parent][h]
             hc = T.new_handle()
             pairs.append([h, hc])
             T.handles[q][hc] = i
-            macros += [f'pickle {parent} {i}', f'unpickle {q} {i}']
+            macros.append(f'pickle {parent} {i}')
+            unp.append(f'unpickle {q} {i}')
+        for h in drop:
+            i = T.handles[parent].pop(h)
+            macros.append(f'delete {parent} {i}')
+        macros += unp
         hold = rng.random() < 0.5
         T.hold[q] = hold
-        emit('spawn', parent, ['spawn', q, pairs, proc_cls, hold], macros)
+        emit('spawn', parent, ['spawn', q, pairs, proc_cls, hold, drop], macros)
         return q
 
     def running():
